@@ -36,12 +36,10 @@ def _run(rep, w, tier, replay):
     if r.violated:
         raise C.Inconclusive("the repaired design violates %s in the model (model or fix is wrong)\n%s" % (r.violated, r.out[-3000:]))
     if thorough:
-        r = C.tlc(w, "MC_SeqMap.tla", "MC_SeqMap_mid.cfg", workers=C.NCPU, timeout=3300, heap="24g")
-        rep.model("MC_SeqMap_mid (M=32,W=4,MaxEntries=3, edge starts)", r)
-        if r.violated:
-            raise C.Inconclusive("model violation at mid constants: %s\n%s" % (r.violated, r.out[-3000:]))
-        if not r.completed:
-            rep.notes.append("MC_SeqMap_mid did not close within the time limit: %d distinct states explored" % r.distinct)
+        # (this configuration does not close in an hour on 16 cores: explored breadth-first under a budget, reported as such)
+        import cache
+        r = cache.model_bounded_time(rep, w, "MC_SeqMap_mid.cfg", "M=32, W=4, MaxEntries=3, edge starts", 1800, module="MC_SeqMap.tla", heap="24g")
+        rep.notes.append("MC_SeqMap_mid explored %d distinct states breadth-first in its time budget without a violation" % r.distinct)
     # 2. the faithful switches must still exhibit the repaired findings
     for cfg, name in (("MC_SeqMap_F9.cfg", "F9"), ("MC_SeqMap_F12.cfg", "F12")):
         r = C.tlc(w, "MC_SeqMap.tla", cfg, workers=4, timeout=600)
